@@ -206,6 +206,33 @@ pub fn op(st: &mut ChunkSt, toks: &[&str]) -> Option<String> {
             }
             "! ok".into()
         }
+        // C19: a refused chunk size is not honoured - after the refusal both codecs still work with the size in force
+        // before it (and a refused FIRST call leaves the default 128)
+        ["!cs.refused", prev, bad, len] => {
+            let (prev, bad, len): (usize, u64, usize) = (prev.parse().ok()?, bad.parse().ok()?, len.parse().ok()?);
+            let mut ser = ChunkSerializer::new();
+            let mut des = ChunkDeserializer::new();
+            let mut wire: Vec<u8> = vec![];
+            let mut in_force = 128usize;
+            if prev != 0 {
+                match ser.set_max_chunk_size(prev as u32, RtmpTimestamp::new(0)) { Ok(p) => wire.extend_from_slice(&p.bytes), Err(_) => return Some("! FAIL valid-size-refused-by-serializer".into()) }
+                if des.set_max_chunk_size(prev).is_err() { return Some("! FAIL valid-size-refused-by-deserializer".into()); }
+                wire.clear();   // the deserializer was told directly
+                in_force = prev;
+            }
+            if bad <= u32::MAX as u64 && ser.set_max_chunk_size(bad as u32, RtmpTimestamp::new(0)).is_ok() { return Some("! FAIL invalid-size-accepted-by-serializer".into()); }
+            if des.set_max_chunk_size(bad as usize).is_ok() { return Some("! FAIL invalid-size-accepted-by-deserializer".into()); }
+            if des.get_max_chunk_size() != in_force { return Some(format!("! FAIL refused-size-{}-honoured: deserializer reports {} instead of {}", bad, des.get_max_chunk_size(), in_force)); }
+            let msgs: Vec<MessagePayload> = (0..3).map(|i| MessagePayload { timestamp: RtmpTimestamp::new(10 * i), type_id: 9, message_stream_id: 1, data: Bytes::from((0..len + i as usize).map(|j| (j * 7 + i as usize) as u8).collect::<Vec<u8>>()) }).collect();
+            for m in &msgs { match ser.serialize(m, false, false) { Ok(p) => wire.extend_from_slice(&p.bytes), Err(_) => return Some("! FAIL serializer-fails-after-refusal".into()) } }
+            // every chunk boundary must be where the size in force puts it: read with the independent decoder too
+            let mut got = vec![];
+            if let Err(e) = feed_one(&mut des, &wire, &mut got) { return Some(format!("! FAIL after refusing chunk size {} the deserializer fails on a stream chunked at {}: {}", bad, in_force, e)); }
+            if got.len() != 3 || got.iter().zip(msgs.iter()).any(|(g, m)| g.data[..] != m.data[..] || g.typ != 9) { return Some(format!("! FAIL after refusing chunk size {} messages chunked at {} are not read back ({} of 3)", bad, in_force, got.len())); }
+            let mut rd = RefDecoder::new(false);
+            rd.cs = in_force;
+            match rd.decode_all(&wire) { Ok(ms) if ms.len() == 3 => "! ok".into(), _ => format!("! FAIL after refusing chunk size {} the serializer no longer chunks at {}", bad, in_force) }
+        }
         ["!chunk.nonempty"] => {
             match st.packets.iter().position(|p| p.bytes.is_empty()) { Some(i) => format!("! FAIL empty-packet for message {}", show_msg(&st.sent[i])), None => "! ok".into() }
         }
